@@ -6,6 +6,7 @@ import (
 	"crypto/sha256"
 	"fmt"
 	"github.com/oasisprotocol/oasis-core/go/common"
+	"github.com/oasisprotocol/oasis-core/go/common/keyformat"
 	"math"
 	"math/big"
 	"sort"
@@ -442,9 +443,14 @@ type RegistryMonitor struct {
 	// Stats
 	KeySwaps, Expired, Dereg int
 	NodeUpdates              int
+	// OwnerIndexChecks counts block boundaries at which the runtime ownership index was compared.
+	OwnerIndexChecks int
 	// ChurpClaims is the largest number of CHURP stake claims implied at a block boundary (key manager support).
 	ChurpClaims int
 }
+
+// runtimeOwnerIndexKeyFmt mirrors the registry's runtime-by-entity index key (0x19 | H(entity) | H(runtime)).
+var runtimeOwnerIndexKeyFmt = keyformat.New(0x19, keyformat.H(&signature.PublicKey{}), keyformat.H(&common.Namespace{}))
 
 func subKeys(n *node.Node) map[string]signature.PublicKey {
 	return map[string]signature.PublicKey{"consensus": n.Consensus.ID, "p2p": n.P2P.ID, "tls": n.TLS.PubKey, "vrf": n.VRF.ID}
@@ -481,6 +487,38 @@ func (m *RegistryMonitor) OnBlock(h *History, b *Block, txs []*GenTx, ref *Block
 	entSet := map[signature.PublicKey]bool{}
 	for _, e := range ents {
 		entSet[e.ID] = true
+	}
+	// (r) the runtime ownership index (which entity may not deregister because it owns runtimes) lists
+	// exactly the owners of the registered runtimes. On chains that do not maintain the index (no entry
+	// at all) there is nothing to compare.
+	{
+		want := map[string]string{}
+		for _, rt := range rts {
+			eid, rid := rt.EntityID, rt.ID
+			want[string(runtimeOwnerIndexKeyFmt.Encode(&eid, &rid))] = fmt.Sprintf("runtime %s owned by %s", rt.ID, rt.EntityID)
+		}
+		have := map[string]bool{}
+		it := st.NewIterator(ctx)
+		for it.Seek(runtimeOwnerIndexKeyFmt.Encode()); it.Valid(); it.Next() {
+			if len(it.Key()) == 0 || it.Key()[0] != 0x19 {
+				break
+			}
+			have[string(it.Key())] = true
+		}
+		it.Close()
+		if len(have) > 0 {
+			m.OwnerIndexChecks++
+			for k := range have {
+				if _, ok := want[k]; !ok {
+					viol("runtime-owner-index/entry-without-runtime", fmt.Sprintf("the runtime ownership index has an entry (%x) that matches no registered runtime and its owner: an entity is recorded as owning a runtime it does not own (or that does not exist)", k), nil)
+				}
+			}
+			for k, what := range want {
+				if !have[k] {
+					viol("runtime-owner-index/owner-not-indexed", fmt.Sprintf("%s: the ownership index has no entry for it, the owner can deregister while owning the runtime", what), nil)
+				}
+			}
+		}
 	}
 	// (a) every current key of every node resolves to that node; keys unique.
 	owner := map[signature.PublicKey]signature.PublicKey{}
